@@ -240,7 +240,7 @@ def init_case(inp):
     site=ES + "{" + ", ".join(MOVES) + "}",
     bound="seeded histories of the 7 real move methods (uniformly drawn) from initial circuits of EvolutionarySolver."
     "initialization with (n_e,n_p) <= (3,5) and from TimeReversedSolver outputs for seeded graphs on 3..5 vertices: "
-    "quick 80 histories x 120 moves, thorough 400 x 250; EmitInv checked after EVERY move",
+    "quick 80 histories x 120 moves, thorough 300 x 200; EmitInv checked after EVERY move",
     clause="every circuit obtained by any sequence of mutation moves satisfies the emission constraints; initial "
     "emission CNOTs / measure-and-reset operations are never removed",
 )
@@ -326,7 +326,7 @@ def _next_prefix(trace):
     site=ES + "{" + ", ".join(MOVES) + "}",
     bound="EVERY sequence of L real moves with EVERY outcome of every np.random.randint position choice inside the moves "
     "(the drawn local Clifford is seeded, not branched on), from every initialization circuit with (n_e,n_p) <= (2,2) "
-    "(all emission/measurement assignments): L=2 quick, L=3 thorough; EmitInv checked after every move",
+    "(all 23 emission/measurement assignments): quick L=2 (L=3 for two of the (2,2) circuits), thorough L=3; EmitInv checked after every move",
     exhaustive=True,
     clause="which edge pairs admit a two-qubit insertion / which nodes may be removed, for all short histories",
 )
@@ -602,7 +602,7 @@ def run(tier, seed):
 
     # random histories
     hist = []
-    n_hist, length = (400, 250) if thorough else (80, 120)
+    n_hist, length = (300, 200) if thorough else (80, 120)
     for h in range(n_hist):
         if h % 4 == 3:
             n = int(rng.integers(3, 6))
@@ -625,8 +625,9 @@ def run(tier, seed):
     for n_e, n_p in [(1, 1), (1, 2), (2, 1), (2, 2)]:
         for emit in itertools.product(range(n_e), repeat=n_p):
             for meas in itertools.product(range(n_p), repeat=n_e):
+                deep = (not thorough) and (list(emit), list(meas)) in (([0, 1], [1, 0]), ([0, 0], [0, 0]))
                 for first in range(len(MOVES)):
-                    ex.append({"init": {"kind": "init", "emit": list(emit), "meas": list(meas)}, "L": L, "first": first, "seed": seed})
+                    ex.append({"init": {"kind": "init", "emit": list(emit), "meas": list(meas)}, "L": 3 if deep else L, "first": first, "seed": seed})
     S.map("moves.exhaustive_short", ex, chunksize=1)
 
     evo = []
